@@ -5,7 +5,7 @@
 From Coq Require Import Reals List Lra Lia.
 From AhrsLib Require Import Base Rot.
 From AhrsGen Require Import C05gen_R.
-From AhrsProps Require Import C05_base C05_mahony C05_ekf C05_compl.
+From AhrsProps Require Import C05_base C05_mahony C05_ekf C05_compl C05_scale C05_scale_roleq_ned C05_scale_roleq_enu.
 Import ListNotations.
 Open Scope R_scope.
 
@@ -129,6 +129,34 @@ Proof.
     apply Forall_map. eapply Forall_impl; [|exact HF]. simpl. tauto.
 Qed.
 Print Assumptions C05_complementary_converges.
+
+(* magnitude independence: the measurements are images of reference DIRECTIONS; multiplying the accelerometer (and the
+   magnetometer) sample by any positive constants leaves the regenerated step unchanged (every output, every branch) —
+   Mahony IMU (q and bias), ROLEQ (both frames), Complementary (IMU, MARG).  A correction built from the raw instead of the
+   normalised sample (effective gain k_P*|a|) fails this. *)
+Theorem C05_scale_invariance : forall s t, 0 < s -> 0 < t ->
+  forall w x y z gx gy gz ax ay az mx my mz dt, 0 < ax*ax + ay*ay + az*az -> 0 < mx*mx + my*my + mz*mz ->
+  (forall kp ki b0 b1 b2, C05_mahony_imu_R w x y z gx gy gz (s*ax) (s*ay) (s*az) dt kp ki b0 b1 b2
+                         = C05_mahony_imu_R w x y z gx gy gz ax ay az dt kp ki b0 b1 b2) /\
+  (forall r0 r1 r2 wa wm,
+     C05_roleq_ned_R w x y z gx gy gz (s*ax) (s*ay) (s*az) (t*mx) (t*my) (t*mz) r0 r1 r2 dt wa wm
+     = C05_roleq_ned_R w x y z gx gy gz ax ay az mx my mz r0 r1 r2 dt wa wm /\
+     C05_roleq_enu_R w x y z gx gy gz (s*ax) (s*ay) (s*az) (t*mx) (t*my) (t*mz) r0 r1 r2 dt wa wm
+     = C05_roleq_enu_R w x y z gx gy gz ax ay az mx my mz r0 r1 r2 dt wa wm) /\
+  (forall e0 e1 e2 u0 u1 u2 gain,
+     C05_compl_marg_R e0 e1 e2 u0 u1 u2 gx gy gz (s*ax) (s*ay) (s*az) (t*mx) (t*my) (t*mz) dt gain
+     = C05_compl_marg_R e0 e1 e2 u0 u1 u2 gx gy gz ax ay az mx my mz dt gain /\
+     C05_compl_imu_R e0 e1 e2 u0 u1 u2 gx gy gz (s*ax) (s*ay) (s*az) dt gain
+     = C05_compl_imu_R e0 e1 e2 u0 u1 u2 gx gy gz ax ay az dt gain).
+Proof.
+  intros s t Hs Ht w x y z gx gy gz ax ay az mx my mz dt Ha Hm. split; [|split].
+  - intros. exact (mahony_imu_scale s w x y z gx gy gz ax ay az dt kp ki b0 b1 b2 Hs Ha).
+  - intros. split; [exact (roleq_ned_scale s t w x y z gx gy gz ax ay az mx my mz r0 r1 r2 dt wa wm Hs Ht Ha Hm)
+                   |exact (roleq_enu_scale s t w x y z gx gy gz ax ay az mx my mz r0 r1 r2 dt wa wm Hs Ht Ha Hm)].
+  - intros. split; [exact (compl_marg_scale s t e0 e1 e2 u0 u1 u2 gx gy gz ax ay az mx my mz dt gain Hs Ht Ha Hm)
+                   |exact (compl_imu_scale s e0 e1 e2 u0 u1 u2 gx gy gz ax ay az dt gain Hs Ha)].
+Qed.
+Print Assumptions C05_scale_invariance.
 
 (* non-vacuity: the hypotheses are inhabited by non-trivial values *)
 Example C05_nonvacuous :
